@@ -209,6 +209,24 @@ theorem beyond_iff (segs : List (Seg α)) (e : Nat) :
     rw [Bool.and_eq_true, decide_eq_true_iff, bne_iff_ne]
     exact h
 
+/-! ### truncated segments -/
+
+theorem truncSeg_isSlice (s : List α) (g : Seg α) (k : Nat) (h : IsSlice s g) : IsSlice s (truncSeg k g) := by
+  obtain ⟨hwf, hsl⟩ := h
+  refine ⟨?_, ?_⟩
+  · simp only [Seg.WF, truncSeg, List.length_take]
+    rw [hwf]
+  · intro j hj
+    simp only [truncSeg] at hj ⊢
+    rw [List.getElem?_take_of_lt (by omega)]
+    exact hsl j (by omega)
+
+/-- a truncated segment covers exactly the captured part of the original -/
+theorem coversB_truncSeg (g : Seg α) (k i : Nat) :
+    coversB (truncSeg k g) i = true ↔ g.off ≤ i ∧ i < g.off + min k g.len := by
+  rw [coversB_iff]
+  simp only [truncSeg]
+
 /-! ### segmentations -/
 
 theorem isSlice_mk' (s t : List α) (off : Nat) (hst : s.drop off = t) (k : Nat) :
